@@ -52,6 +52,18 @@ class Generator:
         self.count = self.npicks = self.ndraws = 0
         self.log = []
 
+    def spawn(self, n_children):
+        """numpy's Generator.spawn: the children derive from the seed sequence and from how often it has spawned before
+        (a hidden counter), not from the generator's state.  Recorded, so that a harness can say so."""
+        self._spawned = getattr(self, "_spawned", 0)
+        self.log.append(("spawn", n_children))
+        if not self.concrete:
+            E.cur().draws.append(dict(stream="S", method="spawn", site=_callsite(), params=None))
+        kids = [Generator("S", backend=self.backend, source=self.source, prefix="%s.spawn%d_%d" % (self.prefix, self._spawned, i))
+                for i in range(int(n_children))]
+        self._spawned += int(n_children)
+        return kids
+
     # ---- plumbing
     @property
     def concrete(self):
